@@ -274,7 +274,9 @@ class Ephem(Speaker):
             if step is None:
 
                 # The step stays the same as the original ephemeris
-                for orb in self:
+                # (self._orbits, as `for orb in self` shares its cursor
+                # with every other iteration running on this object)
+                for orb in self._orbits:
 
                     if orb.date < start:
                         continue
